@@ -2,7 +2,6 @@ package props
 
 import (
 	"fmt"
-	"go/ast"
 	"go/constant"
 	"go/token"
 	"go/types"
@@ -22,33 +21,42 @@ func init() { register("C17", checkC17) }
 func redactionKeyOf(c *fw.Ctx, fnShort string) (key string, detail string) {
 	fn := fnByShortName(c.P, fnShort)
 	if fn == nil {
-		return "", "function " + fnShort + " not found"
+		return "", "UNRESOLVED: function " + fnShort + " not found"
 	}
-	d := funcDeclOf(fn)
-	if d == nil || d.Body == nil {
-		return "", "no syntax for " + fnShort
-	}
-	pkg := c.P.PkgOf(fn)
-	var call *ast.CallExpr
-	ast.Inspect(d.Body, func(n ast.Node) bool {
-		if ce, ok := n.(*ast.CallExpr); ok && call == nil && len(ce.Args) == 3 {
-			call = ce
-		}
-		return true
-	})
-	if call == nil {
-		return "", fnShort + " does not call the generic redaction routine with (json, projection, table)"
-	}
-	// projection struct: type of args[1] (pointer to struct)
-	tv := pkg.TypesInfo.Types[call.Args[1]]
+	// the call of the generic routine (possibly through unexported wrappers): its projection
+	// argument's type and its keep-table argument resolved to a package-level literal
 	var st *types.Struct
-	if tv.Type != nil {
-		if p, ok := tv.Type.Underlying().(*types.Pointer); ok {
+	var tbl fw.Val
+	found := false
+	for _, dc := range fw.DeepCalls(fn, func(n string) bool { return strings.HasPrefix(n, "gmsl.redactEventJSON[") || n == "gmsl.redactEventJSON" }, stopExported) {
+		args := dc.Call.Common().Args
+		if len(args) != 3 {
+			continue
+		}
+		t := args[1].Type()
+		if p, ok := t.Underlying().(*types.Pointer); ok {
 			st, _ = p.Elem().Underlying().(*types.Struct)
 		}
+		tv, _ := rootOf(args[2], dc.Fr)
+		if u, ok := tv.(*ssa.UnOp); ok {
+			tv = u.X
+		}
+		g, isG := tv.(*ssa.Global)
+		if !isG || st == nil {
+			continue
+		}
+		gpkg := c.P.Pkgs[g.Pkg.Pkg.Path()]
+		init, _ := fw.PkgVarInit(gpkg, g.Name())
+		if init == nil {
+			continue
+		}
+		ev := &fw.Evaluator{P: c.P, Pkg: gpkg}
+		tbl = ev.Eval(init)
+		found = true
+		break
 	}
-	if st == nil {
-		return "", "projection argument of " + fnShort + " is not a pointer to a struct"
+	if !found {
+		return "", "UNRESOLVED: " + fnShort + " does not call the generic redaction routine with (json, projection struct, package-level table) in a form the rule can resolve"
 	}
 	top := map[string]bool{}
 	for _, k := range fw.JSONTags(st) {
@@ -56,22 +64,20 @@ func redactionKeyOf(c *fw.Ctx, fnShort string) (key string, detail string) {
 			top[k] = true
 		}
 	}
-	ev := &fw.Evaluator{P: c.P, Pkg: pkg}
-	tbl := ev.Eval(call.Args[2])
 	if tbl.Kind != "map" {
-		return "", "content table argument of " + fnShort + " is not a map literal (" + tbl.Expr + ")"
+		return "", "UNRESOLVED: content table argument of " + fnShort + " is not a map literal (" + tbl.Expr + ")"
 	}
 	content := map[string]map[string]bool{}
 	for i, k := range tbl.Keys {
 		ks, ok := k.Str()
 		if !ok || tbl.Elems[i].Kind != "list" {
-			return "", "content table of " + fnShort + " has a non-literal entry"
+			return "", "UNRESOLVED: content table of " + fnShort + " has a non-literal entry"
 		}
 		set := map[string]bool{}
 		for _, e := range tbl.Elems[i].Elems {
 			s, ok := e.Str()
 			if !ok {
-				return "", "content table of " + fnShort + " has a non-constant key"
+				return "", "UNRESOLVED: content table of " + fnShort + " has a non-constant key"
 			}
 			set[s] = true
 		}
@@ -158,6 +164,10 @@ func checkVersionMatrix(c *fw.Ctx, rule string, fields map[string]bool) *version
 					k, d := redactionKeyOf(c, gotCell)
 					r = [2]string{k, d}
 					redCache[gotCell] = r
+				}
+				if r[0] == "" && strings.HasPrefix(r[1], "UNRESOLVED:") {
+					c.Undecided(rule, construct, r[1])
+					continue
 				}
 				if r[0] == "" {
 					// the table content itself is judged by C05; here only the binding matters
